@@ -7,9 +7,17 @@ from vp.ref import bath as rbath
 from vp.ref import models
 
 
-def tempo_params(dt, epsrel, kmax=None, tau=None, subdiv_limit=256):
+def tempo_params(dt, epsrel, kmax=None, tau=None, subdiv_limit=256,
+                 as_tcut=None):
+    """as_tcut: give the memory length as a time - "literal" (kmax*dt as a
+    user writes it, e.g. 0.3 for three steps of 0.1) or "inside" (a time
+    0.4 dt short of kmax steps, which rounds to kmax)."""
     import oqupy
     kw = dict(dt=dt, epsrel=epsrel, dkmax=kmax, subdiv_limit=subdiv_limit)
+    if kmax is not None and as_tcut is not None:
+        del kw["dkmax"]
+        kw["tcut"] = float(repr(round(kmax * dt, 10))) \
+            if as_tcut == "literal" else (kmax - 0.4) * dt
     if kmax is not None and tau is not None:
         kw["add_correlation_time"] = tau
     return oqupy.TempoParameters(**kw)
